@@ -172,12 +172,18 @@ Definition vers_of (o : wopts) (trv : bool) (vs : section) : option las_version 
     | None => bind (item_value_by trv (s2l "VERS") (s_items vs)) version_of
     end.
 
+(* the written copy of ~Version declares DLM SPACE *)
+Definition vcopy_of (trv : bool) (vs : section) : list hitem :=
+    match update_first trv (s2l "DLM") (fun it => set_value it (VStr (s2l "SPACE"))) (s_items vs) with
+    | Some r => r
+    | None => s_items vs
+    end.
 Definition vsw_of (v : las_version) (trv : bool) (vs : section) : list hitem :=
     if las_version_eqb v V12 then
-      set_item trv (s2l "VERS") (new_item (s2l "VERS") [] (VFloat (s2l "1.2")) (s2l "CWLS LOG ASCII STANDARD - VERSION 1.2")) (s_items vs)
+      set_item trv (s2l "VERS") (new_item (s2l "VERS") [] (VFloat (s2l "1.2")) (s2l "CWLS LOG ASCII STANDARD - VERSION 1.2")) (vcopy_of trv vs)
     else if las_version_eqb v V20 then
-      set_item trv (s2l "VERS") (new_item (s2l "VERS") [] (VFloat (s2l "2.0")) (s2l "CWLS log ASCII Standard -VERSION 2.0")) (s_items vs)
-    else s_items vs.
+      set_item trv (s2l "VERS") (new_item (s2l "VERS") [] (VFloat (s2l "2.0")) (s2l "CWLS log ASCII Standard -VERSION 2.0")) (vcopy_of trv vs)
+    else vcopy_of trv vs.
 
 (* 6-12. the text, from the final state *)
 Definition render_text (o : wopts) (wrap : bool) (v : las_version) (vsw : list hitem) (l3 : las) : option (list N) :=
